@@ -57,7 +57,6 @@ pub fn run(ctx: &mut Ctx, reg: &Registry) {
                         ctx.count("truncations");
                         verdict(ctx, &s, v, e.ops.load(&file[..k], 0, Container::CryptoMem).map(|x| x.0), &file, &format!("truncated to {}", k), "stream", "cut");
                     }
-                    // appended garbage after a complete stream is a modification too, when it forms (part of) a new chunk
                     // wrong keys
                     for i in 0..ctx.t(8, 64) {
                         let mut key = KEY;
